@@ -7,7 +7,7 @@
     be a function of exactly (affinity mode, affinity key)).  The driver
     separately recomputes the real hash and reports a violation if it differs. *)
 From Coq Require Import List Arith ZArith NArith String Bool.
-From SV Require Import Common.Tok Common.Slab C19.Model.
+From SV Require Import Common.Tok Common.Slab C19.Model C19.Shell.
 Import ListNotations.
 Open Scope string_scope.
 Open Scope list_scope.
@@ -16,7 +16,7 @@ Definition enc_hash (wp : bool) (a : addr) : N :=
   fold_left (fun acc x => (acc * 65536 + x + 1)%N)
             ([if wp then 1%N else 0%N; N.of_nat (List.length (a_ip a))] ++ a_ip a ++ [a_port a]) 0%N.
 
-Record rstate := mkr { rm : mgr; rnow : N; rseen : list N; rtimer : option N; rsel : option nat }.
+Record rstate := mkr { rm : mgr; rnow : N; rseen : list N; rtimer : option N; rsel : option nat; rwq : wq }.
 
 (** the flow named by the most recent [SelectBackend] (the shell resolves it at once) *)
 Fixpoint last_sel (os : list lout) (acc : option nat) : option nat :=
@@ -107,7 +107,7 @@ Definition cfg_of (args : list tok) : option (cfg * list tok) :=
 Definition do_step (st : rstate) (i : input) : rstate * list tok :=
   let '(m', os) := step enc_hash (rm st) (rnow st) i in
   let '(seen', ts) := outs_toks (rseen st) os in
-  (mkr m' (rnow st) seen' (last_arm os (rtimer st)) (last_sel os (rsel st)), ts ++ st_toks m').
+  (mkr m' (rnow st) seen' (last_arm os (rtimer st)) (last_sel os (rsel st)) (rwq st), ts ++ st_toks m').
 
 Definition step_op (st : rstate) (op : list tok) : rstate * list tok :=
   let bad := (st, [TS "badop"]) in
@@ -116,7 +116,7 @@ Definition step_op (st : rstate) (op : list tok) : rstate * list tok :=
     if name =? "new" then
       match cfg_of args with
       | Some (c, [TN mf; TN mrx; TN _seed]) =>
-        (mkr (mgr_new c (Z.to_N mf) (Z.to_N mrx)) (rnow st) (rseen st) None None, [])
+        (mkr (mgr_new c (Z.to_N mf) (Z.to_N mrx)) (rnow st) (rseen st) None None (rwq st), [])
       | _ => bad end
     else if name =? "cd" then
       match args with
@@ -134,7 +134,7 @@ Definition step_op (st : rstate) (op : list tok) : rstate * list tok :=
       (* the shell's synchronous resolution of the flow just selected *)
       match args, rsel st with
       | [TB bid; TB ip; TN port], Some id =>
-        do_step (mkr (rm st) (rnow st) (rseen st) (rtimer st) None) (IResolved id bid (mkaddr ip (Z.to_N port)))
+        do_step (mkr (rm st) (rnow st) (rseen st) (rtimer st) None (rwq st)) (IResolved id bid (mkaddr ip (Z.to_N port)))
       | [TB _; TB _; TN _], None => (st, [])
       | _, _ => bad end
     else if name =? "setc" then
@@ -148,13 +148,13 @@ Definition step_op (st : rstate) (op : list tok) : rstate * list tok :=
     else if name =? "drain" then do_step st IDrain
     else if name =? "tick" then
       match args with
-      | [TN d] => (mkr (rm st) (rnow st + Z.to_N d)%N (rseen st) (rtimer st) (rsel st), [])
+      | [TN d] => (mkr (rm st) (rnow st + Z.to_N d)%N (rseen st) (rtimer st) (rsel st) (rwq st), [])
       | _ => bad end
     else if name =? "fire" then
       (* the shell's timer fires, at the armed deadline or [e] ms early *)
       match args, rtimer st with
       | [TN e], Some d =>
-        do_step (mkr (rm st) (N.max (rnow st) (d - Z.to_N e)) (rseen st) None (rsel st)) ITimeout
+        do_step (mkr (rm st) (N.max (rnow st) (d - Z.to_N e)) (rseen st) None (rsel st) (rwq st)) ITimeout
       | [TN _], None => (st, [])
       | _, _ => bad end
     else if name =? "timeout" then do_step st ITimeout
@@ -164,6 +164,25 @@ Definition step_op (st : rstate) (op : list tok) : rstate * list tok :=
     else if (name =? "setup") || (name =? "send") || (name =? "sleep") || (name =? "recluster") then
       (* ops of the black-box tier (harness/src/bin/c19e.rs): nothing for the in-process model to do *)
       (st, [])
+    else if name =? "wq_new" then
+      match args with
+      | [TN cap] => (mkr (rm st) (rnow st) (rseen st) (rtimer st) (rsel st) (wq_new (Z.to_nat cap)), [])
+      | _ => bad end
+    else if name =? "wq_push" then
+      match args with
+      | [TB ip; TN port; TB p] =>
+        let '(q', ok) := wq_push (rwq st) (mkaddr ip (Z.to_N port)) p in
+        (mkr (rm st) (rnow st) (rseen st) (rtimer st) (rsel st) q', [tn_bool ok; tn_bool (wq_is_empty q')])
+      | _ => bad end
+    else if name =? "wq_drain" then
+      match args with
+      | [TB script] =>
+        let sched := map (fun c => if N.eqb c 0 then Sent else if N.eqb c 1 then WouldBlock else HardErr) script in
+        let '(rest, sent, _) := wq_drain_items (wq_items (rwq st)) sched in
+        (mkr (rm st) (rnow st) (rseen st) (rtimer st) (rsel st) (mkwq rest (wq_cap (rwq st))),
+         tn_bool (match rest with [] => true | _ => false end)
+         :: flat_map (fun x => addr_toks (fst x) ++ [TB (snd x)]) sent)
+      | _ => bad end
     else if name =? "dump" then
       (st, flat_map flow_toks (sitems (m_flows (rm st))))
     else bad
@@ -179,4 +198,4 @@ Fixpoint run_from (st : rstate) (ops : list (list tok)) : list (list tok) :=
 Definition empty_cfg : cfg := mkcfg [] false 0 0 0 0 false false.
 
 Definition run_case (ops : list (list tok)) : list (list tok) :=
-  run_from (mkr (mgr_new empty_cfg 0 0) 0%N [] None None) ops.
+  run_from (mkr (mgr_new empty_cfg 0 0) 0%N [] None None (wq_new 0)) ops.
